@@ -88,12 +88,19 @@ def snap_style(st, ids):
         return None
     props = tuple(snap_property(p, ids) for p in st.getProperties(all=True))
     eff = tuple(ids(p) for p in st.getProperties())
-    return ('Style', ids(st), _text(st, 'cssText'), st.length, tuple(st.keys()), props, eff,
+    keys = tuple(st.keys())
+    # name-level queries: item(i), and per normalised name the properties / value / priority found under it
+    byname = tuple((k, tuple(ids(p) for p in st.getProperties(k, all=True)), st.getPropertyValue(k),
+                    st.getPropertyPriority(k)) for k in keys)
+    items = tuple(st.item(i) for i in range(st.length))
+    return ('Style', ids(st), _text(st, 'cssText'), st.length, keys, items, byname, props, eff,
             tuple(type(c).__name__ for c in st.children()), ids(st.parentRule))
 
 
 def snap_selector(s, ids):
-    return ('Selector', ids(s), _text(s, 'selectorText'), s.specificity, s.wellformed, repr(s.element),
+    lit = tuple((str(i.type), i.value if isinstance(i.value, (str, tuple)) else type(i.value).__name__)
+                for i in s.seq)
+    return ('Selector', ids(s), _text(s, 'selectorText'), lit, s.specificity, s.wellformed, repr(s.element),
             tuple(sorted(s._getUsedUris())), ids(s.parent))
 
 
@@ -105,7 +112,8 @@ def snap_selectorlist(sl, ids):
 
 
 def snap_mq(mq, ids):
-    return ('MediaQuery', ids(mq), _text(mq, 'mediaText'), mq.mediaType, mq.wellformed)
+    lit = tuple(i.value if isinstance(i.value, str) else type(i.value).__name__ for i in mq.seq)
+    return ('MediaQuery', ids(mq), _text(mq, 'mediaText'), lit, mq.mediaType, mq.wellformed)
 
 
 def snap_medialist(ml, ids):
@@ -118,7 +126,9 @@ def snap_medialist(ml, ids):
 def snap_variables(v, ids):
     if v is None:
         return None
-    return ('Variables', ids(v), _text(v, 'cssText'), v.length, tuple(v.keys()),
+    lit = tuple(i.value[0] for i in v.seq if i.type == 'var')      # names as written
+    return ('Variables', ids(v), _text(v, 'cssText'), v.length, tuple(v.keys()), lit,
+            tuple(v.item(i) for i in range(v.length)),
             tuple(v.getVariableValue(k) for k in v.keys()), ids(v.parentRule))
 
 
